@@ -33,6 +33,10 @@ type Prog struct {
 	// forbidden features found in repository packages (unsafe, reflect
 	// calls, linkname, cgo); affected checks treat them as undecided.
 	Forbidden []string
+	// Daemon: repository packages reachable from package main through
+	// non-test imports. Test-support packages (fakes, testtools) are
+	// outside and never part of a worker's cone.
+	Daemon map[string]bool
 }
 
 // LoadOpts selects the build configuration.
@@ -101,6 +105,23 @@ func Load(o LoadOpts) (*Prog, error) {
 		SSA:    prog,
 	}
 	p.scanForbidden()
+	p.Daemon = map[string]bool{}
+	var visit func(pk *packages.Package)
+	visit = func(pk *packages.Package) {
+		if pk == nil || p.Daemon[pk.PkgPath] {
+			return
+		}
+		p.Daemon[pk.PkgPath] = true
+		for _, imp := range pk.Imports {
+			if strings.HasPrefix(imp.PkgPath, ModPath) {
+				visit(imp)
+			}
+		}
+	}
+	visit(all[ModPath])
+	if len(p.Daemon) == 0 {
+		return nil, fmt.Errorf("load: main package %s not found", ModPath)
+	}
 	return p, nil
 }
 
@@ -344,4 +365,9 @@ func (p *Prog) AllRepoFuncs() []*ssa.Function {
 		return out[i].String() < out[j].String()
 	})
 	return out
+}
+
+// InDaemon: fn is declared in a package the daemon binary links.
+func (p *Prog) InDaemon(fn *ssa.Function) bool {
+	return InRepo(fn) && p.Daemon[FuncPkgPath(fn)]
 }
